@@ -24,7 +24,8 @@ def cases(tier):
             cfg = {'scenario': 'batch', 'n': 8, 'x': 2, 'members': [honest_member(i, base[i]) for i in range(k)], 'verify_order': list(perm),
                    'actions': ['VerifyOnly', 'RecoverAndVerify', 'RecoverOnly']}
             out.append({'cfg': cfg, 'kind': 'honest', 'name': 'honest k=%d order %s' % (k, list(perm))})
-    for (n, x, ks) in ([(2, 1, kinds)] if tier == 'quick' else [(2, 1, kinds), (16, 3, kinds), (64, 1, kinds[:3])]):
+    wide = [(1, 8, True), (8, 8, False), (2, 8, False)]     # extension degree 6, an aggregate of 8, spare capacity
+    for (n, x, ks) in ([(2, 1, kinds), (2, 6, wide)] if tier == 'quick' else [(2, 1, kinds), (2, 6, wide), (16, 3, kinds), (64, 1, kinds[:3])]):
         members = [honest_member(i, ks[i]) for i in range(len(ks))]
         if n * sum(k_[0] for k_ in ks) > 96:
             # beyond 96 witness bits in one batch the h-coefficient query (the only one that needs b*b = b) no longer finishes: the values of
